@@ -9,12 +9,20 @@ stop_words = {
     "Decimal",
     "Enum",
     "False",
+    "ForwardRef",
+    "Mapping",
     "Meta",
     "None",
     "Optional",
     "QName",
+    "Sequence",
     "True",
     "Union",
+    "XmlDate",
+    "XmlDateTime",
+    "XmlDuration",
+    "XmlPeriod",
+    "XmlTime",
     "and",
     "as",
     "assert",
